@@ -41,12 +41,16 @@ type plan struct {
 	Tape    []uint64
 	During  []model.Point // written while the backup's snapshot is in flight (may be nil)
 	Cuts    int
-	Flush   int // 1: the fsync of the snapshot file the backup forces fails; 2: snapshots are disabled on the shard
+	RPC     *rpcPlan // the shard copy through the cluster's RPCs
+	Flush   int      // 1: the fsync of the snapshot file the backup forces fails; 2: snapshots are disabled on the shard
 	ExportA int64
 	ExportB int64
 }
 
 func genPlan(t *rapid.T) interface{} {
+	if rapid.IntRange(0, 4).Draw(t, "rpcmode") == 0 {
+		return &plan{RPC: genRPC(t)}
+	}
 	p := &plan{H: storesim.GenHPlan(t, &profile)}
 	p.Tape = storesim.GenTape(t, 32, "tape")
 	if rapid.IntRange(0, 2).Draw(t, "during") == 0 {
@@ -126,6 +130,10 @@ func restoreTo(run *core.Run, root, index string, id uint64, data []byte) (*stor
 
 func exec(run *core.Run, pl interface{}) {
 	p := pl.(*plan)
+	if p.RPC != nil {
+		execRPC(run, p.RPC)
+		return
+	}
 	tape := &storesim.Tape{V: p.Tape}
 	h := &storesim.History{Run: run, Pr: &profile, Plan: p.H, Root: filepath.Join(run.Scratch, "src")}
 	h.Epilogue = func(h *storesim.History) {
@@ -392,6 +400,13 @@ func exec(run *core.Run, pl interface{}) {
 
 func describe(pl interface{}) interface{} {
 	p := pl.(*plan)
+	if p.RPC != nil {
+		var steps []string
+		for _, s := range p.RPC.Steps {
+			steps = append(steps, fmt.Sprintf("write(%d)+%s %s", len(s.Batch), s.Op, s.Cond))
+		}
+		return map[string]interface{}{"mode": "rpc", "index": p.RPC.Index, "fault": fmt.Sprintf("%s/%d", p.RPC.Fault, p.RPC.K), "steps": steps}
+	}
 	d := storesim.DescribeHPlan(p.H).(map[string]interface{})
 	d["write_during_backup"] = len(p.During)
 	d["stream_cuts"] = p.Cuts
@@ -408,10 +423,10 @@ func TestC18(t *testing.T) {
 		Warmup:         storesim.Warmup,
 		Describe:       describe,
 		Tier:           "A",
-		RequiredProbes: []string{"restore-verified", "write-during-backup", "cut-detected", "cut-at-block-boundary", "export-verified"},
-		Real:           []string{"tsdb.Store.BackupShard / RestoreShard / ExportShard / ImportShard", "tsm1.Engine.Backup, CreateSnapshot, overlay, readFileFromBackup", "pkg/tar stream", "the storage engine underneath (as C02)"},
-		Stub:           []string{"the network between source and destination: the backup stream is carried in a buffer and cut at seeded offsets (what a reset connection delivers); coordinator.Service's CopyShard RPC and the meta handler that adds the owner afterwards are not run"},
+		RequiredProbes: []string{"restore-verified", "write-during-backup", "cut-detected", "cut-at-block-boundary", "export-verified", "rpc-copy-verified", "rpc-copy-refused", "rpc-copy-verified-under-fault"},
+		Real:           []string{"tsdb.Store.BackupShard / RestoreShard / ExportShard / ImportShard", "tsm1.Engine.Backup, CreateSnapshot, overlay, readFileFromBackup", "pkg/tar stream", "the storage engine underneath (as C02)", "RPC mode (1 run in 5): coordinator.Client.CopyShard, coordinator.Service processCopyShardRequest / backupRemoteShard / processBackupShardRequest on two real data nodes behind tcp.Mux"},
+		Stub:           []string{"the network between source and destination: in the store mode the backup stream is carried in a buffer and cut at seeded offsets (what a reset connection delivers); in RPC mode it is the simulated network (fragmenting, slow, reset or closed cleanly after a drawn number of bytes); the meta handler that adds the owner after a successful copy is not run"},
 		Assumptions:    []string{"incremental backups (since != epoch) are not explored: the filter compares file mtimes, which the kernel stamps with real time while the simulation runs on a fake clock"},
-		Rule:           "a run = seeded source history, then full backup (1/3 with an acknowledged write parked inside the backup's snapshot) restored into a fresh store and compared through both read paths (also after a restart), 0-6 cuts of the stream (block boundaries, before the trailer, random) offered to RestoreShard, and a time-bounded export/import compared with the model restricted to the range; non-trivial = the full restore was verified",
+		Rule:           "a run = seeded source history, then full backup (1/3 with an acknowledged write parked inside the backup's snapshot) restored into a fresh store and compared through both read paths (also after a restart), 0-6 cuts of the stream (block boundaries, before the trailer, random) offered to RestoreShard, and a time-bounded export/import compared with the model restricted to the range; non-trivial = the full restore was verified. RPC mode (1 run in 5): 1-6 write batches with snapshot / full compaction / delete steps on node 1, then the real copy-shard request to node 2 over a faulted connection between the nodes; a copy reported complete must read exactly like the source, and the request must return",
 	})
 }
